@@ -29,6 +29,16 @@ def Load():
     return json.load(f)
 
 
+def _FieldMatches(signature, key, want):
+  """Exact match; a key ending in `~` holds a regular expression that the
+  signature's value (as text) must match from its start."""
+  if key.endswith('~'):
+    import re
+    got = signature.get(key[:-1])
+    return got is not None and re.match(want, str(got)) is not None
+  return signature.get(key) == want
+
+
 class Classifier:
   def __init__(self, prop):
     self.prop = prop
@@ -38,7 +48,7 @@ class Classifier:
   def Match(self, signature):
     """Returns the finding whose `match` dict is a sub-dict of signature."""
     for f in self.known:
-      if all(signature.get(k) == v for k, v in f['match'].items()):
+      if all(_FieldMatches(signature, k, v) for k, v in f['match'].items()):
         self.hit.setdefault(f['id'], []).append(signature)
         return f
     return None
